@@ -171,30 +171,42 @@ def valid_frames():
 FRAMES = valid_frames()
 
 
-def do_mutate(name, pos, b):
+def mutable_positions(name):
+    frame, may_write, reqlen = FRAMES[name]
+    return len(frame) if reqlen is None else len(frame) - reqlen
+
+
+def do_mutate(name, pos, b, lo=0, hi=None):
     frame, may_write, reqlen = FRAMES[name]
     frame = list(frame)
+    hi = mutable_positions(name) if hi is None else hi
+    pos = lo + concretize(pos, hi - lo)
     if reqlen is None:
-        pos = concretize(pos, len(frame))
+        pass
     else:
         # positions outside the embedded write request: [0, start) and [start+reqlen, len)
         start = 24 + 6 + 2 + 4 + 4 + 1 + 5 + 2 + 2           # encap + ifc/timeout + count + null item + item hdr + 0x52 + path + prio/ticks + size
         outside = len(frame) - reqlen
-        pos = concretize(pos, outside)
         if pos >= start:
             pos += reqlen
     frame[pos] = b
     return attack(frame, may_write)
 
 
+MSH = 6           # byte positions per shard (one position costs ~8 execution paths of two full-stack requests each)
+QUICK_MUT = {('read_tag', 24), ('read_tag', 54), ('write_tag_wrapper', 0), ('write_tag_wrapper', 36), ('multiple_reads', 60), ('register', 0)}
 for name in FRAMES:
-    define(globals(), 'C08', 'mutate_%s' % name, ['pos', 'b'], "return do_mutate(%r, pos, b)" % name, ['0 <= pos and 0 <= b <= 255'],
-           tier='quick' if name in ('read_tag', 'write_tag_wrapper', 'multiple_reads', 'register') else 'thorough',
-           timeout=6000, path_timeout=300, drives=FULL,
-           symbolic=['pos: EVERY byte position of the frame (length, count, offset, size, service and path fields at every nesting level)', 'b: the replacement value 0..255'],
-           bounds='valid %s frame (%d bytes) with one byte replaced by every value at every position: the processor returns or raises an Exception '
-                  'subclass, tags change only through the (intact) write it carries, locks released, next request served' % (name, len(FRAMES[name][0])),
-           outside='two simultaneous substitutions (thorough: mutate2_*); insertions/deletions other than via length fields')
+    npos = mutable_positions(name)
+    for lo in range(0, npos, MSH):
+        hi = min(lo + MSH, npos)
+        define(globals(), 'C08', 'mutate_%s_%03d' % (name, lo), ['pos', 'b'], "return do_mutate(%r, pos, b, %d, %d)" % (name, lo, hi), ['0 <= pos < %d and 0 <= b <= 255' % (hi - lo)],
+               tier='quick' if (name, lo) in QUICK_MUT else 'thorough', timeout=3000, path_timeout=300, drives=FULL,
+               symbolic=['pos: every byte position in [%d, %d) of the %d mutable positions of the frame (length, count, offset, size, service and path fields at every nesting level)' % (lo, hi, npos),
+                         'b: the replacement value 0..255'],
+               bounds='valid %s frame (%d bytes) with one byte of positions %d..%d replaced by every value: the processor returns or raises an Exception subclass, tags '
+                      'change only through the (intact) write it carries, locks released, next request served; the shards of a frame cover every position' % (
+                          name, len(FRAMES[name][0]), lo, hi - 1),
+               outside='two simultaneous substitutions; insertions/deletions other than via length fields')
 
 
 # ---- inconsistent length / count / offset fields inside a write request -------------------------------------------------------------------------
@@ -218,11 +230,12 @@ def do_write_fields(frag, idx, elements, offset, nvals, v):
 
 for frag in (False, True):
     for _idx in range(6):
-        define(globals(), 'C08', 'write_%s_inconsistent_fields_at%d' % ('frag' if frag else 'tag', _idx), ['elements', 'offset', 'nvals', 'v'],
-               "return do_write_fields(%r, %d, elements, offset, nvals, v)" % (frag, _idx),
-               ['0 <= elements <= 5 and 0 <= offset <= %d and 0 <= nvals <= 4 and -100 <= v <= 100' % (3 if frag else 0)],
-               tier='quick' if (frag, _idx) in ((False, 1), (True, 0), (True, 2)) else 'thorough', timeout=3000, path_timeout=300, drives=FULL,
-               symbolic=['elements: declared element count 0..5', 'offset: declared element offset 0..3 (fragmented)', 'nvals: number of values actually carried 0..4', 'v'],
-               bounds='reference-encoded Write Tag%s to the INT[4] tag at start index %d with EVERY combination of declared count, declared offset and carried values: the tag '
-                      'changes only if the request is a complete well-formed write (then exactly the addressed elements), its length never changes, no other tag '
-                      'changes, next request served' % (' Fragmented' if frag else '', _idx), outside='')
+        for _off in (range(4) if frag else (0,)):
+            define(globals(), 'C08', 'write_%s_inconsistent_fields_at%d_off%d' % ('frag' if frag else 'tag', _idx, _off), ['elements', 'nvals', 'v'],
+                   "return do_write_fields(%r, %d, elements, %d, nvals, v)" % (frag, _idx, _off),
+                   ['0 <= elements <= 5 and 0 <= nvals <= 4 and -100 <= v <= 100'],
+                   tier='quick' if (frag, _idx, _off) in ((False, 1, 0), (True, 0, 0), (True, 1, 1), (True, 2, 2)) else 'thorough', timeout=3000, path_timeout=300, drives=FULL,
+                   symbolic=['elements: declared element count 0..5', 'nvals: number of values actually carried 0..4', 'v'],
+                   bounds='reference-encoded Write Tag%s to the INT[4] tag at start index %d, declared element offset %d, with EVERY combination of declared count and carried '
+                          'values: the tag changes only if the request is a complete well-formed write (then exactly the addressed elements), its length never changes, '
+                          'no other tag changes, next request served' % (' Fragmented' if frag else '', _idx, _off), outside='')
